@@ -325,4 +325,4 @@ def _obligations():
 
 
 def obligations():
-    return _obligations() + [labels_obligation("C07"), selectors_obligation("C07"), effects_obligation("C07"), plumbing_obligation("C07")]
+    return _obligations() + [labels_obligation("C07"), selectors_obligation("C07"), effects_obligation("C07"), plumbing_obligation("C07"), overrides_obligation("C07"), options_obligation("C07")]
